@@ -325,6 +325,16 @@ pub trait Check: Sync {
     fn dual_mode(&self) -> bool {
         false
     }
+    /// Build modes of the harness binaries that execute this check's scenarios; scenario index
+    /// modulo the number of modes selects the mode (and the scenario's "mode" field names it).
+    /// "relovf" = release + overflow checks, debug assertions OFF, no target-cpu=native.
+    fn modes(&self) -> Vec<&'static str> {
+        if self.dual_mode() {
+            vec!["release", "relchk"]
+        } else {
+            vec!["release"]
+        }
+    }
     /// true when the tier enumerates a finite space completely (rare)
     fn exhaustive(&self, _tier: Tier) -> bool {
         false
